@@ -584,8 +584,9 @@ def _confined_load(text, loader_name, allow_getattr):
     return docs, exc, calls, list(_AUDIT['imports']), new_modules
 import os
 
-def _node_tags(text):
-    """tags of all nodes of all documents as composed by SafeLoader (the composer/resolver are not what C01 is about)"""
+def _node_tags(text, c_backend=False):
+    """tags of all nodes of all documents as composed by the safe loader of the back-end under test (the composer/resolver are not what C01 is
+    about; the two scanners differ on a tag glued to a flow indicator, `!!str,`)"""
     import yaml
     tags = set(); seen = set()
     def walk(n):
@@ -597,12 +598,12 @@ def _node_tags(text):
             for k, v in n.value: walk(k); walk(v)
     try:
         keep = []
-        for n in yaml.compose_all(text, Loader=yaml.SafeLoader):
+        for n in yaml.compose_all(text, Loader=(getattr(yaml, 'CSafeLoader', None) if c_backend else None) or yaml.SafeLoader):
             keep.append(n)                                   # ids in `seen` are unique only while the nodes are alive
             if n is not None: walk(n)
     except Exception: return None
     # ... and, independently of parser and composer, the tags written in the text: every TAG token of a document that loads belongs to one of its nodes
-    for L in (getattr(yaml, 'CSafeLoader', None), yaml.SafeLoader):
+    for L in ((getattr(yaml, 'CSafeLoader', None), yaml.SafeLoader) if c_backend else (yaml.SafeLoader, getattr(yaml, 'CSafeLoader', None))):
         if L is None: continue
         try:
             handles = {'!': '!', '!!': 'tag:yaml.org,2002:'}; in_content = False
@@ -645,7 +646,7 @@ def c01(text, loader_name, warm=None):
         if '?' in s.replace('S', '') and ('=?' in s or s.startswith('R0=?')) or 'TUP(' in s or '=C(' in s:
             bad.append(dict(kind='non_plain_object', what='%s returned an object outside the plain-data universe: %s' % (loader_name, s[:160]), loader=loader_name)); break
     if 'Base' not in loader_name:
-        tags = _node_tags(text)
+        tags = _node_tags(text, loader_name.startswith('C'))
         if tags is not None:
             foreign = [t for t in tags if t not in CORE12 and t not in ('tag:yaml.org,2002:merge', 'tag:yaml.org,2002:value')]
             if foreign: bad.append(dict(kind='unknown_tag_accepted', what='%s loaded a document carrying the non-core tag %r' % (loader_name, foreign[0]), loader=loader_name))
@@ -713,7 +714,7 @@ def c04(text, loader_name, named, warm=None):
     # object-construction tags must have been rejected
     import re as _re
     if _re.search(r'python/(object|module)[:/]', text) or _re.search(r'!!python/(object|module)', text):
-        tags = _node_tags(text.replace('!!python/', '!<tag:yaml.org,2002:python/') if False else text)
+        tags = _node_tags(text, loader_name.startswith('C'))
         if tags is not None and any(t.startswith(('tag:yaml.org,2002:python/object', 'tag:yaml.org,2002:python/module')) for t in tags):
             bad.append(dict(kind='object_tag_accepted', what='%s loaded a document carrying an object-construction tag' % loader_name, loader=loader_name))
     return dict(bad=bad, outcome='ok')
